@@ -357,6 +357,9 @@ pub struct JaxNoise {
     pub eof: u8,
     /// header / comment lines longer than a reader buffer (8 KiB) in all four files
     pub long_lines: bool,
+    /// order of the tags inside a [Term] stanza (OBO recommends an order, it does not require one): 0 `id` first
+    /// in every stanza; otherwise, varying from stanza to stanza, `id` after `name`, `id` last, all lines reversed
+    pub tag_order: u8,
 }
 
 const TAG_POOL: [&str; 8] = [
@@ -405,6 +408,7 @@ pub fn render_jax(f: &Facts, noise: &JaxNoise) -> JaxFiles {
             obo.push_str("\n[Typedef]\nid: part_of\nname: part of\nis_a: HP:0000001 ! bogus\n");
         }
         obo.push_str("\n[Term]\n");
+        let stanza_start = obo.len();
         obo.push_str(&format!("id: {}\n", hp(t.id)));
         let ntags = if noise.extra_tags.is_empty() { 0 } else { noise.extra_tags[pos % noise.extra_tags.len()] as usize % 4 };
         // some tags before name, some after
@@ -448,6 +452,28 @@ pub fn render_jax(f: &Facts, noise: &JaxNoise) -> JaxFiles {
         }
         if let Some(r) = t.replacement {
             obo.push_str(&format!("replaced_by: {}\n", hp(r)));
+        }
+        if noise.tag_order != 0 {
+            let mut lines: Vec<String> = obo[stanza_start..].lines().map(str::to_string).collect();
+            match (noise.tag_order as usize + pos) % 4 {
+                1 => {
+                    // id directly after the name
+                    let id_line = lines.remove(0);
+                    let at = lines.iter().position(|l| l.starts_with("name: ")).map_or(0, |i| i + 1);
+                    lines.insert(at, id_line);
+                }
+                2 => {
+                    let id_line = lines.remove(0);
+                    lines.push(id_line);
+                }
+                3 => lines.reverse(),
+                _ => {}
+            }
+            obo.truncate(stanza_start);
+            for l in lines {
+                obo.push_str(&l);
+                obo.push('\n');
+            }
         }
     }
     while typedefs > 0 {
